@@ -14,7 +14,7 @@ Not decided: symplecticity / invariance (mathematics on top of these facts).
 from ..linform import lin, show_lin
 from ..program import AnalysisError
 from ..rules import is_call, is_mcall, mentions, calls, mcalls
-from ..terms import Evaluator, P, is_t, mk_proj, show, subterms
+from ..terms import C, Evaluator, P, is_t, mk_proj, show, subterms
 
 MOD = "inference/requests/hmc.py"
 
@@ -164,6 +164,24 @@ def run(chk, prog):
     ra_ = eva.eval_fn(amf, mm_)
     oka_ = is_call(ra_.ret, "sum") and any(is_t(x, "treemap") and x[2] == (P("momenta"),) and is_call(x[1], "normal_score") and x[1][2] == (("bin", "*", P("mul"), ("leaf", P("momenta"))),) for x in subterms(ra_.ret))
     chk.require(oka_, "ALPHA", "assess_momenta", "sum over leaves of the standard-normal log density of mul * momentum", derived=show(ra_.ret)[:240], expected="sum(normal_score(mul * v) for every leaf)", where=f"{mm_.rel}:{amf.lineno}")
+    # normal_score(v): the standard-normal log density of the WHOLE leaf v, summed over its elements: sum(Normal(0, 1).log_prob(v)), or its closed form
+    # -0.5 * (sum(v ** 2) + n * log(2 pi)) - the square inside the sum
+    _, nsf = prog.func("normal_score", MOD)
+    rns = Evaluator(prog).eval_fn(nsf, mm_)
+    V_ = P("v")
+    def _lp_form(t):
+        inner = t[2][0] if is_call(t, "sum") and t[2] else t
+        return is_mcall(inner, "log_prob") and inner[2] == (V_,) and is_call(inner[1][1], "Normal") and tuple(inner[1][1][2]) in ((C(0.0), C(1.0)), (C(0), C(1)))
+    def _closed_form(t):
+        f_ = lin(t)
+        quad_atoms = (("call", ("global", "jax.numpy.sum"), (("bin", "**", V_, C(2)),), ()), ("call", ("global", "jax.numpy.sum"), (("bin", "*", V_, V_),), ()),
+                      ("call", ("global", "jax.numpy.sum"), (("call", ("global", "jax.numpy.square"), (V_,), ()),), ()), ("call", ("global", "jax.numpy.vdot"), (V_, V_), ()))
+        with_v = [m_ for m_ in f_ if any(mentions(x, V_) and not (is_call(x, "size") or is_call(x, "shape") or (is_t(x, "attr") and x[2] in ("size", "shape"))) for x in m_)]
+        return len(with_v) == 1 and len(with_v[0]) == 1 and next(iter(with_v[0])) in quad_atoms and f_[with_v[0]] == -0.5
+    rets_ns = [t for c_, t in rns.returns]
+    okns = bool(rets_ns) and (all(_lp_form(t) for t in rets_ns) or all(_closed_form(t) for t in rets_ns))
+    chk.require(okns, "ALPHA", "normal_score", "standard-normal log density of a momentum leaf", derived=str([show(t)[:120] for t in rets_ns]),
+                expected="sum over the elements of Normal(0, 1).log_prob(v)  (closed form: -0.5 * (sum(v ** 2) + n log 2 pi))", where=f"{mm_.rel}:{nsf.lineno}")
     _, shf = prog.func("SafeHMC", MOD)
     rh_ = Evaluator(prog).eval_fn(shf, mm_)
     okh_ = is_mcall(rh_.ret, "map") and rh_.ret[1][1] == ("ctor", "HMC", (P("selection"), P("eps"), P("L")), ())
